@@ -195,25 +195,21 @@ theorem strV2_eq (h : V2) : strV2 h = v2Text strLayV2 h := by
     show "\"".toList = ['"'] by decide, show " ".toList = [' '] by decide]
 
 /-- **C12_roundtrip** (v1): the text of every valid v1 header object, followed by a body encoded in the declared
-    character set, parses back to that header and that body.  `hasc` (decidable) says the nine header lines are
-    ASCII — true of every header text, stated as a hypothesis because the line count is not proved here. -/
+    character set, parses back to that header and that body -/
 theorem C12_roundtrip_v1 (p1 : V1P) (p2 : V2P) (tbl : List (Option Nat)) (h : V1) (body : Str) (bb : Bytes)
     (cs : Name) (hv : ValidV1 p1 h) (hcodec : codecV1 p1 h = .ok cs) (henc : encode tbl cs body = .ok bb)
-    (hb0 : body.head? = some '<') (hb1 : body.getLast? = some '>')
-    (hasc : headerLinesAscii strLayV1 { h := h, withCompression := true } bb = true) :
+    (hb0 : body.head? = some '<') (hb1 : body.getLast? = some '>') :
     parseHeader p1 p2 tbl (asciiBytes (strV1 h) ++ bb) = .ok (.v1 h, body) := by
   rw [strV1_eq]
   exact parse_v1 p1 p2 tbl strLayV1 _ body bb cs hv (by intro h; cases h) hcodec henc hb0 hb1 (by decide)
-    (by rfl) hasc
 
 /-- **C12_roundtrip** (v2) -/
 theorem C12_roundtrip_v2 (p1 : V1P) (p2 : V2P) (tbl : List (Option Nat)) (h : V2) (body : Str) (bb : Bytes)
     (hv : ValidV2 p2 h) (henc : encode tbl .utf8 body = .ok bb)
-    (hb0 : body.head? = some '<') (hb1 : body.getLast? = some '>')
-    (hasc : firstLineAscii strLayV2 h bb = true) :
+    (hb0 : body.head? = some '<') (hb1 : body.getLast? = some '>') :
     parseHeader p1 p2 tbl (asciiBytes (strV2 h) ++ bb) = .ok (.v2 h, body) := by
   rw [strV2_eq]
-  exact parse_v2 p1 p2 tbl strLayV2 h body bb hv henc hb0 hb1 (by decide) (by decide) hasc .dq .dq .dq rfl rfl rfl
+  exact parse_v2 p1 p2 tbl strLayV2 h body bb hv henc hb0 hb1 (by decide)
 
 /-- the kind matches the version: 1xx gives a flat-text header object, 2xx an XML one (or the header error) -/
 theorem C12_kind (p1 : V1P) (p2 : V2P) (v : Arg) (i : Int) (s o n : Option Str) (hd : Hdr)
@@ -233,6 +229,185 @@ theorem C12_kind (p1 : V1P) (p2 : V2P) (v : Arg) (i : Int) (s o n : Option Str) 
       | ok h => rw [hc] at hk; cases hk; exact Or.inr ⟨h2, h, rfl⟩
     · simp only [h2, if_false] at hk
       cases hk
+
+
+/-! ### what a match consumed: the mandatory literals occur, in pattern order -/
+
+/-- the strings occur in `s` one after the other (not necessarily adjacent) -/
+def occ : List Str → Str → Prop
+  | [], _ => True
+  | l :: ls, s => ∃ a b, s = a ++ (l ++ b) ∧ occ ls b
+
+theorem occ_weaken (ls : List Str) (c s : Str) (h : occ ls s) : occ ls (c ++ s) := by
+  cases ls with
+  | nil => trivial
+  | cons l ls =>
+    obtain ⟨a, b, hs, hb⟩ := h
+    exact ⟨c ++ a, b, by rw [hs]; simp, hb⟩
+
+theorem tryDown_some (f : Nat → Option α) (n : Nat) (r : α) (h : tryDown f n = some r) : ∃ m, f m = some r := by
+  induction n with
+  | zero => simp [tryDown] at h
+  | succ n ih =>
+    rw [tryDown] at h
+    split at h
+    · rename_i r' hr; cases h; exact ⟨_, hr⟩
+    · exact ih h
+
+/-- every item consumes a prefix and hands the rest to its continuation; a literal consumes itself -/
+theorem stepItem_sound (i : Item) (k : St → Str → Option Res) (st : St) (s : Str) (r : Res)
+    (h : stepItem i k st s = some r) :
+    ∃ c s' st', s = c ++ s' ∧ k st' s' = some r ∧ ∀ l, i = .lit l → c = l := by
+  cases i with
+  | lit l =>
+    simp only [stepItem] at h
+    split at h
+    · rename_i hp
+      obtain ⟨t, ht⟩ := List.isPrefixOf_iff_prefix.1 hp
+      refine ⟨l, s.drop l.length, st, ?_, h, fun l' e => by cases e; rfl⟩
+      rw [← ht]; simp
+    · cases h
+  | ws0 => exact ⟨s.takeWhile isSpace, s.dropWhile isSpace, st, by simp, h, fun l e => by cases e⟩
+  | ws1 =>
+    cases s with
+    | nil => simp [stepItem] at h
+    | cons c cs =>
+      simp only [stepItem] at h
+      split at h
+      · exact ⟨c :: cs.takeWhile isSpace, cs.dropWhile isSpace, st, by simp, h, fun l e => by cases e⟩
+      · cases h
+  | cap p =>
+    simp only [stepItem] at h
+    obtain ⟨m, hm⟩ := tryDown_some _ _ _ h
+    exact ⟨s.take m, s.drop m, _, by simp, hm, fun l e => by cases e⟩
+  | openq =>
+    cases s with
+    | nil => simp [stepItem] at h
+    | cons c cs =>
+      simp only [stepItem] at h
+      split at h
+      · exact ⟨[c], cs, _, rfl, h, fun l e => by cases e⟩
+      · cases h
+  | closeq =>
+    cases s with
+    | nil => simp [stepItem] at h
+    | cons c cs =>
+      simp only [stepItem] at h
+      split at h
+      · exact ⟨[c], cs, _, rfl, h, fun l e => by cases e⟩
+      · cases h
+
+theorem matchItems_sound (is : List Item) (k : St → Str → Option Res) (st : St) (s : Str) (r : Res)
+    (h : matchItems is k st s = some r) : ∃ c s' st', s = c ++ s' ∧ k st' s' = some r := by
+  induction is generalizing st s with
+  | nil => exact ⟨[], s, st, rfl, h⟩
+  | cons i is ih =>
+    obtain ⟨c, s', st', hs, hk, _⟩ := stepItem_sound i (matchItems is k) st s r h
+    obtain ⟨c2, s2, st2, hs2, hk2⟩ := ih st' s' hk
+    exact ⟨c ++ c2, s2, st2, by rw [hs, hs2]; simp, hk2⟩
+
+/-- the mandatory literals of a pattern, in order -/
+def litsOf : List Seg → List Str
+  | [] => []
+  | .item (.lit l) :: segs => l :: litsOf segs
+  | _ :: segs => litsOf segs
+
+theorem matchSegs_sound (segs : List Seg) (st : St) (s : Str) (r : Res) (h : matchSegs segs st s = some r) :
+    occ (litsOf segs) s := by
+  induction segs generalizing st s r with
+  | nil => trivial
+  | cons sg segs ih =>
+    cases sg with
+    | item i =>
+      rw [matchSegs_item] at h
+      obtain ⟨c, s', st', hs, hk, hl⟩ := stepItem_sound i (matchSegs segs) st s r h
+      have := ih st' s' r hk
+      cases i with
+      | lit l =>
+        have hc := hl l rfl
+        subst hc
+        exact ⟨[], s', by rw [hs]; rfl, this⟩
+      | ws0 => rw [hs]; exact occ_weaken _ _ _ this
+      | ws1 => rw [hs]; exact occ_weaken _ _ _ this
+      | cap p => rw [hs]; exact occ_weaken _ _ _ this
+      | openq => rw [hs]; exact occ_weaken _ _ _ this
+      | closeq => rw [hs]; exact occ_weaken _ _ _ this
+    | opt is =>
+      rw [matchSegs_opt] at h
+      show occ (litsOf segs) s
+      cases hm : matchItems is (matchSegs segs) st s with
+      | some r' =>
+        obtain ⟨c, s', st', hs, hk⟩ := matchItems_sound is (matchSegs segs) st s r' hm
+        rw [hs]; exact occ_weaken _ _ _ (ih st' s' r' hk)
+      | none =>
+        rw [hm] at h
+        exact ih _ s r h
+
+theorem reSearch_sound (segs : List Seg) (s : Str) (r : Res) (h : reSearch segs s = some r) :
+    occ (litsOf segs) s := by
+  induction s with
+  | nil => exact matchSegs_sound segs {} [] r (by simpa [reSearch, reMatch] using h)
+  | cons c cs ih =>
+    rw [reSearch] at h
+    split at h
+    · rename_i r' hr; exact matchSegs_sound segs {} _ r' hr
+    · exact occ_weaken _ [c] cs (ih h)
+
+/-- the eight mandatory field names of a v1 header, each with its colon -/
+def v1Lits : List Str :=
+  ["OFXHEADER:".toList, "DATA:".toList, "VERSION:".toList, "SECURITY:".toList, "ENCODING:".toList,
+   "CHARSET:".toList, "OLDFILEUID:".toList, "NEWFILEUID:".toList]
+
+def v2Lits : List Str :=
+  ["<?OFX".toList, "OFXHEADER=".toList, "VERSION=".toList, "SECURITY=".toList, "OLDFILEUID=".toList,
+   "NEWFILEUID=".toList, "?>".toList]
+
+theorem litsOf_v1 : litsOf v1Regex = v1Lits := by rfl
+theorem litsOf_v2 : litsOf v2Regex = v2Lits := by rfl
+
+/-- **C12_refuse_text** (omission / transposition, v1): unless the eight mandatory `NAME:` markers occur in the
+    text in the prescribed order, the text is refused with the header error.  (The side condition is the
+    hypothesis itself: a text with a field missing or two fields transposed fails it as long as the missing /
+    displaced marker does not occur again later in the scanned lines, e.g. inside the body.) -/
+theorem C12_refuse_text_order_v1 (p : V1P) (raw : Str) (h : ¬ occ v1Lits raw) : parseV1 p raw = .error .header := by
+  apply C12_refuse_text_nomatch_v1
+  cases hs : reSearch v1Regex raw with
+  | none => rfl
+  | some r => exact absurd (litsOf_v1 ▸ reSearch_sound v1Regex raw r hs) h
+
+theorem C12_refuse_text_order_v2 (p : V2P) (raw : Str) (h : ¬ occ v2Lits raw) : parseV2 p raw = .error .header := by
+  apply C12_refuse_text_nomatch_v2
+  cases hs : reSearch v2Regex raw with
+  | none => rfl
+  | some r => exact absurd (litsOf_v2 ▸ reSearch_sound v2Regex raw r hs) h
+
+theorem occ_mem_infix (ls : List Str) (s : Str) (h : occ ls s) : ∀ l ∈ ls, ∃ a b, s = a ++ (l ++ b) := by
+  induction ls generalizing s with
+  | nil => intro l hl; cases hl
+  | cons l0 ls ih =>
+    obtain ⟨a, b, hs, hb⟩ := h
+    intro l hl
+    rcases List.mem_cons.1 hl with e | e
+    · subst e; exact ⟨a, b, hs⟩
+    · obtain ⟨a2, b2, h2⟩ := ih b hb l e
+      exact ⟨a ++ (l0 ++ a2), b2, by rw [hs, h2]; simp⟩
+
+/-- omission of a mandatory field: if some `NAME:` marker occurs nowhere in the text, the header error -/
+theorem C12_refuse_text_omit_v1 (p : V1P) (raw l : Str) (hl : l ∈ v1Lits) (h : ¬ ∃ a b, raw = a ++ (l ++ b)) :
+    parseV1 p raw = .error .header :=
+  C12_refuse_text_order_v1 p raw (fun ho => h (occ_mem_infix _ _ ho l hl))
+
+theorem C12_refuse_text_omit_v2 (p : V2P) (raw l : Str) (hl : l ∈ v2Lits) (h : ¬ ∃ a b, raw = a ++ (l ++ b)) :
+    parseV2 p raw = .error .header :=
+  C12_refuse_text_order_v2 p raw (fun ho => h (occ_mem_infix _ _ ho l hl))
+
+
+/-- the guard of `C12_refuse_text_omit_v1` is satisfiable: a header text with the DATA field left out -/
+example : ¬ ∃ a b, "OFXHEADER:100VERSION:102SECURITY:NONE<OFX>".toList = a ++ ("DATA:".toList ++ b) := by
+  intro ⟨a, b, h⟩
+  have : "DATA:".toList <:+: "OFXHEADER:100VERSION:102SECURITY:NONE<OFX>".toList := ⟨a, b, by rw [h]; simp⟩
+  revert this
+  decide +kernel
 
 /-! ### the pinned tree accepts v1 versions that are not 1xx -/
 
